@@ -751,7 +751,8 @@ pub fn gen(args: &[String]) {
     let mut rng = Rng::new(prng::seed_from_env());
     if what == "all" || what == "exh" {
         // exhaustive: all sizes up to `full`; one further size sampled
-        let (full, sampled, nsample) = if tier == "thorough" { (5, 6, 150000) } else { (4, 5, 6000) };
+        let (full, sampled, nsample) = if tier == "thorough" { (5, 6, 150000) } else { (4, 5, 2500) };
+        let nsample: usize = std::env::var("C01_SAMPLE").ok().and_then(|s| s.parse().ok()).unwrap_or(nsample);
         let full: usize = std::env::var("C01_EXH").ok().and_then(|s| s.parse().ok()).unwrap_or(full);
         let mut en = Enum { memo: HashMap::new() };
         let top = Scope::empty();
@@ -759,7 +760,7 @@ pub fn gen(args: &[String]) {
             let ps = en.all(n, &top);
             eprintln!("c01 gen: {} programs with {n} nodes", ps.len());
             for p in ps.iter() {
-                emit(&mut id, "exh", p, &ins[..if n >= 4 { 2 } else { ins.len() }]);
+                emit(&mut id, "exh", p, &ins[..if n >= 4 { 1 } else { ins.len() }]);
             }
         }
         if sampled > full {
@@ -772,7 +773,8 @@ pub fn gen(args: &[String]) {
         }
     }
     if what == "all" || what == "rand" {
-        let n = if tier == "thorough" { 120000 } else { 6000 };
+        let n = if tier == "thorough" { 120000 } else { 3000 };
+        let n: usize = std::env::var("C01_RAND").ok().and_then(|s| s.parse().ok()).unwrap_or(n);
         for _ in 0..n {
             let cap = *rng.pick(&[8usize, 16, 24, 38]);
             let size = 3 + rng.below(cap);
